@@ -47,6 +47,14 @@ CLAIMS["C04"] = (
     "only DELETE/RENUM/NEW reach a mutator. Equality of RUN transcripts is not decided.",
     "who-may-write + must-write dataflow (effect analysis) on MIR")
 
+CLAIMS["C12"] = (
+    "decides reset completeness over a total state inventory: every field of Runtime, Var, "
+    "Program, Link, Listing (from the type definitions) is classified, and CLEAR / NEW / the "
+    "recompile must write every field of their class on every path (must-write over the CFG); "
+    "RUN is compiled as Clear+Jump and dispatched to Runtime::clear. Equality of a run with a run "
+    "in a fresh interpreter is not decided.",
+    "state inventory from ADT definitions + must-write-on-all-paths effect analysis")
+
 NOT_APPLICABLE = {}
 
 
